@@ -522,6 +522,7 @@ for _name, _post, _text in (
         requires=[lambda ref: _nondegenerate(ref)],
         ensures=[(_text, (lambda _post: (lambda **kw: _post(kw)))(_post))],
         ghost_args={f"{GBX}:bounding_box_in_pixel_domain": (lambda **kw: _family_binder(**kw))},
+        returns=lambda: GEOBOX(min_side=0),
         note="families of 1-3 GeoBoxes: base grid (any invertible affine: north-up, mirrored, rotated, sheared) x integer pixel shifts x arbitrary shapes",
     )
 
@@ -1269,4 +1270,84 @@ lemma(
     requires=[lambda A: A.a * A.e - A.b * A.d != 0],
     body=_lemma_gcp_gcps,
     note="what xr_coords stores for a GCP GeoBox (cropped / padded / zoomed boxes included): shapely multipoints are ghost lists of points; rasterio's GroundControlPoint is a plain record",
+)
+
+
+# ---- union / intersection: commutative and associative (machine-checked over the contracts) -----------------------------------------
+
+
+def _same_gbox(p, q):
+    return And(aff_eq(p.affine, q.affine), p.shape.x == q.shape.x, p.shape.y == q.shape.y, _same_crs(p.crs, q.crs))
+
+
+def _neg(t):
+    return (-t[0], -t[1])
+
+
+def _lemma_gbox_commute(ref, t1, s1):
+    a, b = ref, _shifted(ref, t1, s1)
+    m = repo(GBX)
+    U, I = m.geobox_union_conservative, m.geobox_intersection_conservative
+    claim(_same_gbox(U([a, b]), U([b, a])), "a | b == b | a (same grid, same placement, same shape)")
+    iab, iba = I([a, b]), I([b, a])
+    claim(And(iab.shape.x == iba.shape.x, iab.shape.y == iba.shape.y), "a & b and b & a have the same shape")
+    claim(Implies(And(iab.shape.x > 0, iab.shape.y > 0), _same_gbox(iab, iba)), "a & b == b & a whenever they share a pixel (an empty result is placed relative to its first operand)")
+
+
+def _commute_binder(call_index, ref, t1, s1):
+    sa = tuple(ref.shape.yx)
+    if call_index == 0:
+        return dict(ref=ref, t1=t1, s1=s1)
+    return dict(ref=_shifted(ref, t1, s1), t1=_neg(t1), s1=sa)
+
+
+lemma(
+    "geobox.union_intersection_commute",
+    ["C16"],
+    inputs=dict(ref=GEOBOX(min_side=0), t1=Tup(Int(), Int()), s1=Tup(Int(ge=0), Int(ge=0))),
+    requires=[lambda ref: _nondegenerate(ref)],
+    body=_lemma_gbox_commute,
+    ghost_args={f"{GBX}:geobox_union_conservative": _commute_binder, f"{GBX}:geobox_intersection_conservative": _commute_binder},
+    note="over the contracts of union / intersection: the second call is the same family described from the other member's grid (reference b, a shifted by -t); the stub checks that description against the actual operands",
+)
+
+
+def _lemma_gbox_assoc(ref, t1, s1, t2, s2):
+    a, b, c = ref, _shifted(ref, t1, s1), _shifted(ref, t2, s2)
+    m = repo(GBX)
+    U = m.geobox_union_conservative
+    ab = U([a, b])
+    ab_c = U([ab, c])
+    bc = U([b, c])
+    a_bc = U([a, bc])
+    abc = U([a, b, c])
+    claim(_same_gbox(ab_c, abc), "(a | b) | c == union of all three")
+    claim(_same_gbox(a_bc, abc), "a | (b | c) == union of all three")
+
+
+def _assoc_binder(call_index, ref, t1, s1, t2, s2):
+    nx, ny = ref.shape.x, ref.shape.y
+    r = lambda t, s: (t[0], t[1], t[0] + s[1], t[1] + s[0])
+    ra, rb, rc = (0, 0, nx, ny), r(t1, s1), r(t2, s2)
+    hull = lambda p, q: (Min(p[0], q[0]), Min(p[1], q[1]), Max(p[2], q[2]), Max(p[3], q[3]))
+    fam = lambda first, others: dict(ref=_shifted(ref, (first[0], first[1]), (first[3] - first[1], first[2] - first[0])), **{k: v for i, o in enumerate(others, 1) for k, v in ((f"t{i}", (o[0] - first[0], o[1] - first[1])), (f"s{i}", (o[3] - o[1], o[2] - o[0])))})
+    if call_index == 0:
+        return dict(ref=ref, t1=t1, s1=s1)
+    if call_index == 1:
+        return fam(hull(ra, rb), [rc])
+    if call_index == 2:
+        return fam(rb, [rc])
+    if call_index == 3:
+        return dict(ref=ref, t1=(hull(rb, rc)[0], hull(rb, rc)[1]), s1=(hull(rb, rc)[3] - hull(rb, rc)[1], hull(rb, rc)[2] - hull(rb, rc)[0]))
+    return dict(ref=ref, t1=t1, s1=s1, t2=t2, s2=s2)
+
+
+lemma(
+    "geobox.union_associative",
+    ["C16"],
+    inputs=dict(ref=GEOBOX(min_side=0), t1=Tup(Int(), Int()), s1=Tup(Int(ge=0), Int(ge=0)), t2=Tup(Int(), Int()), s2=Tup(Int(ge=0), Int(ge=0))),
+    requires=[lambda ref: _nondegenerate(ref)],
+    body=_lemma_gbox_assoc,
+    ghost_args={f"{GBX}:geobox_union_conservative": _assoc_binder},
+    note="over the contract of union: every intermediate result is re-described as a family on its own first member's grid and that description is checked by the stub",
 )
